@@ -5,6 +5,7 @@ import ast
 
 from ..cfg import CFG
 from .. import logic
+from ..core import ordkey  # noqa: E402
 from ..core import (expand_aliases, single_assign_aliases, AnalysisError, DefRef, NotConst, Ref, call_name, calls_in, dotted, enclosing_conditions, func_params, get_kw, norm,
                     qualname_of, walk_no_nested)
 
@@ -117,8 +118,17 @@ def run(ctx):
     if len(rowc) != 1 or not hdrc:
         raise AnalysisError("R20.2: writerow / writeheader not found")
     # the run-change test: compares the stored previous descriptor with the current record's
+    from ..core import expand_aliases as _ea20, single_assign_aliases as _saa20
+    al20 = {k: v for k, v in _saa20(cw).items() if isinstance(v, ast.Attribute)}  # `current = self.desc`, `desc = r._desc` read once into a local
     changed = [st for st in walk_no_nested(cw) if isinstance(st, ast.If) and any(
-        isinstance(n, ast.Compare) and isinstance(n.ops[0], (ast.NotEq, ast.IsNot)) and {norm(n.left), norm(n.comparators[0])} == {"self.desc", f"{r}._desc"} for n in ast.walk(st.test))]
+        isinstance(n, ast.Compare) and isinstance(n.ops[0], (ast.NotEq, ast.IsNot)) and {norm(_ea20(n.left, al20)), norm(_ea20(n.comparators[0], al20))} == {"self.desc", f"{r}._desc"}
+        for n in ast.walk(st.test))]
+    # (a local copy of self.desc stands for the previous descriptor only if it was taken before self.desc is updated)
+    for k20, v20 in al20.items():
+        if norm(v20) == "self.desc":
+            d20 = next(st for st in walk_no_nested(cw) if isinstance(st, ast.Assign) and norm(st.targets[0]) == k20)
+            if any(isinstance(st, ast.Assign) and norm(st.targets[0]) == "self.desc" and ordkey(st) < ordkey(d20) for st in walk_no_nested(cw)):
+                changed = []
     if not changed:
         ctx.fail("R20.2", "CsvfileWriter.write:run-change-test", "no comparison of the previous record's descriptor with the current one: a header is not written when a run of "
                  "another type starts", cw, key="R20.2:CsvfileWriter:no-run-change-test")
@@ -131,7 +141,7 @@ def run(ctx):
             ok = conds == [(norm(ch.test), True)]
             ctx.check(ok, "R20.2", "CsvfileWriter.write:header-on-every-run", f"writeheader() runs only under {conds}: when a record type re-appears after another type its rows follow "
                       "the other type's header and are read under the wrong column names", h, f"header written whenever `{norm(ch.test)}`", key="R20.2:CsvfileWriter:header-not-on-every-run")
-        upd = [st for st in ch.body if isinstance(st, ast.Assign) and norm(st.targets[0]) == "self.desc" and norm(st.value) == f"{r}._desc"]
+        upd = [st for st in ch.body if isinstance(st, ast.Assign) and norm(st.targets[0]) == "self.desc" and norm(_ea20(st.value, al20)) == f"{r}._desc"]
         ctx.check(bool(upd), "R20.2", "CsvfileWriter.write:remember-descriptor", "the previous descriptor is not updated on a run change", ch, "self.desc = r._desc")
         # the writer used for the row is the one created in this branch for the current field set
         wdefs = [cfg.nodes[i].ast for i in cfg.reaching_defs("self.writer")[cfg.node_of(rowc[0]).id] if cfg.nodes[i].ast is not None]
